@@ -506,6 +506,7 @@ type Contract struct {
 	Pure     bool
 	NoInline bool
 	Asserts  map[int][]Clause
+	After    map[string][]Clause // "callee#k" -> lemmas proved (then assumed) right after that call
 }
 
 type SpecFunc struct {
@@ -577,7 +578,7 @@ func (ss *SpecSet) parseContractLines(lines []string, pkgPath, file string) erro
 			pkgPath = rest
 			cur = nil
 		case "func", "method", "closure":
-			cur = &Contract{Key: rest, PkgPath: pkgPath, File: file, Loops: map[int]*LoopSpec{}, Asserts: map[int][]Clause{}}
+			cur = &Contract{Key: rest, PkgPath: pkgPath, File: file, Loops: map[int]*LoopSpec{}, Asserts: map[int][]Clause{}, After: map[string][]Clause{}}
 			k := pkgPath + "." + rest
 			if _, dup := ss.Contracts[k]; dup {
 				return fmt.Errorf("%s: duplicate contract for %s", file, k)
@@ -650,6 +651,20 @@ func (ss *SpecSet) parseContractLines(lines []string, pkgPath, file string) erro
 				cur.NoInline = true
 			case "loop", "assert":
 				f := strings.Fields(rest)
+				if kw == "assert" && len(f) >= 3 && f[0] == "after" {
+					// assert after Callee#k <expr>
+					key := strings.TrimSuffix(f[1], ":")
+					body := strings.TrimSpace(strings.TrimPrefix(strings.TrimSpace(strings.TrimPrefix(rest, "after")), f[1]))
+					c, err := mk(body)
+					if err != nil {
+						return err
+					}
+					if !strings.Contains(key, "#") {
+						key += "#1"
+					}
+					cur.After[key] = append(cur.After[key], c)
+					break
+				}
 				if len(f) < 2 {
 					return fmt.Errorf("%s: bad clause %q", file, st)
 				}
